@@ -288,6 +288,7 @@ func c14(r *eng.Run) {
 			break
 		}
 	}
+	arenaRefillPass(r, "C14")
 	r.Set("pumped_histories", pumped)
 	r.Set("pumped_history_length", r.Pick(10050, 20100))
 	st.Transitions += pumped
